@@ -185,9 +185,9 @@ def oracle(case):
         # (ii) do_not_copy attributes carried by identity
         meta = type(recv).__spec_class__
         targeted = _targeted_attrs(toks)
-        if type(res) is type(recv) and not meta.do_not_copy:
-            for aname, spec in meta.attrs.items():
-                if not spec.do_not_copy or aname not in recv.__dict__:
+        if type(res) is type(recv) and not H.declared_class_dnc(type(recv)):
+            for aname in list(meta.attrs):
+                if not H.declared_attr_dnc(type(recv), aname) or aname not in recv.__dict__:
                     continue
                 a = int(aname[1:])
                 if targeted is None or a in targeted:
